@@ -141,8 +141,11 @@ class Report(object):
             per_rule.setdefault(i.rule, []).append(i)
         for rule, floor in self.floors.items():
             n = len(per_rule.get(rule, []))
-            if n < floor:
-                self.broken.append('rule %s matched %d instance(s), fewer than the %d confirmed by hand '
+            # the hand-confirmed count is today's; a helper that merges sites legitimately lowers it, so the alarm is
+            # raised when a rule has lost more than half of its instances (and always when it matches nothing)
+            need = (floor + 1) // 2
+            if n < need:
+                self.broken.append('rule %s matched %d instance(s), fewer than half of the %d confirmed by hand '
                                    '(anchor vanished or renamed?)' % (rule, n, floor))
         viol = [i for i in insts if i.status == 'violation']
         und = [i for i in insts if i.status == 'undecided']
